@@ -92,6 +92,8 @@ func (d *driver) run() {
 	d.sum.ErrFrom = map[string]int{}
 	d.sum.Fam = map[string][]int{}
 	d.sum.FamCPUms = map[string]float64{}
+	d.sum.FamMaxQuad = map[string]float64{}
+	d.sum.FamMaxBack = map[string]float64{}
 
 	t0 := time.Now()
 	phase := func(name string) {
@@ -159,7 +161,11 @@ func (d *driver) run() {
 			f.what, f.id, perKey[f.key], len(f.text), quoteBytes(f.text, 160)), f.ext, f.text)
 	}
 
-	e.Extra("bound", fmt.Sprintf("B(n) = %d*(n+16)*min(n+16,%d) lexer+parser steps per entry-point call; CPU net %d s and heap net %d MiB per case", budgetC, budgetKnee, cpuNetSeconds, heapNetBytes>>20))
+	e.Extra("bound", fmt.Sprintf("per entry-point call on n bytes: at most %d*(n+16)^2 lexer+parser steps; never %d*(n+16) consecutive steps with the top-level parser position confined to %d values, nor %d consecutive steps with it past the end of the token list, nor more than %d*(n+16) rewinds of it; CPU net %d s and heap net %d MiB per case", budgetC, stallC, stallSpread, pastEndRun, backC, cpuNetSeconds, heapNetBytes>>20))
+	e.Extra("max_ratio_quadratic_by_family", d.sum.FamMaxQuad)
+	e.Extra("max_backtrack_ratio_by_family", d.sum.FamMaxBack)
+	e.Extra("max_backtrack_ratio", map[string]any{"rewinds_over_n16": d.sum.MaxBack, "case": d.sum.MaxBackID})
+	e.Extra("max_stall_ratio", map[string]any{"longest_confined_run_over_n16": d.sum.MaxStall, "case": d.sum.MaxStallID})
 	e.Extra("max_case_cpu_ms", map[string]any{"ms": d.sum.MaxCPUms, "case": d.sum.MaxCPUID})
 	e.Extra("entry_point_calls", d.sum.Calls)
 	e.Extra("outcomes_by_entry", d.sum.Outcomes)
@@ -269,6 +275,7 @@ func (d *driver) phase0(bs []base) []base {
 		}
 		// the base that began and did not end killed the worker: the whole file is a failing input
 		cls, site := classifyDeath(r)
+		site = strings.TrimPrefix(site, strings.TrimSuffix(e.Repo, "/")+"/")
 		d.deaths++
 		d.fail(failure{key: "death@" + cls + ":" + site, what: "lexing the unmodified text kills the process (" + cls + ")", ext: "php", text: bs[begun].Src, id: bs[begun].Name})
 		start = begun + 1
@@ -441,6 +448,7 @@ func (d *driver) runJob(idx int, j job) (accepted []string) {
 			// the worker's own CPU/heap net ended it and wrote a record
 		} else {
 			cls, site := classifyDeath(r)
+			site = strings.TrimPrefix(site, strings.TrimSuffix(e.Repo, "/")+"/")
 			d.fail(failure{key: "death@" + cls + ":" + site, what: "lexing/parsing this input kills the host process: " + cls + " (" + oneLine(tailOf(r.Stderr, 400), 400) + ")", ext: extFor(text), text: text, id: c.ID})
 		}
 		start = open + 1
@@ -493,7 +501,7 @@ func (d *driver) runJob(idx int, j job) (accepted []string) {
 			case "panic":
 				d.fail(failure{key: "panic@" + f.Site + "#" + f.Kind, what: entryTitle(f.Entry) + " panics: " + f.Msg + " at " + f.Site, ext: ext, text: in, id: c.ID})
 			case "steps":
-				d.fail(failure{key: "steps@" + f.Site, what: entryTitle(f.Entry) + " does not terminate within the step bound (" + f.Msg + "); the loop that does not advance is in " + f.Site, ext: ext, text: in, id: c.ID})
+				d.fail(failure{key: "steps@" + f.Site + "#" + f.Kind, what: entryTitle(f.Entry) + " does not terminate within the step bound (" + f.Msg + "); the loop that does not advance is in " + f.Site, ext: ext, text: in, id: c.ID})
 			case "badresult":
 				d.fail(failure{key: "result@" + f.Kind, what: entryTitle(f.Entry) + ": " + f.Msg, ext: ext, text: in, id: c.ID})
 			}
@@ -571,6 +579,22 @@ func (d *driver) mergeSummary(s wsummary) {
 	for k, v := range s.FamCPUms {
 		d.sum.FamCPUms[k] += v
 	}
+	for k, v := range s.FamMaxQuad {
+		if v > d.sum.FamMaxQuad[k] {
+			d.sum.FamMaxQuad[k] = v
+		}
+	}
+	for k, v := range s.FamMaxBack {
+		if v > d.sum.FamMaxBack[k] {
+			d.sum.FamMaxBack[k] = v
+		}
+	}
+	if s.MaxBack > d.sum.MaxBack {
+		d.sum.MaxBack, d.sum.MaxBackID = s.MaxBack, s.MaxBackID
+	}
+	if s.MaxStall > d.sum.MaxStall {
+		d.sum.MaxStall, d.sum.MaxStallID = s.MaxStall, s.MaxStallID
+	}
 	if s.MaxCPUms > d.sum.MaxCPUms {
 		d.sum.MaxCPUms, d.sum.MaxCPUID = s.MaxCPUms, s.MaxCPUID
 	}
@@ -601,7 +625,7 @@ func (d *driver) runAccepted(bs []base, c cspec) {
 	_ = os.WriteFile(p, text, 0o644)
 	defer os.Remove(p)
 	r := lib.RunProc(lib.ProcSpec{
-		Argv:    []string{"/bin/sh", "-c", `ulimit -t 2; ulimit -v 8388608; exec "$0" "$1"`, e.Origami(), p},
+		Argv:    []string{"/bin/sh", "-c", `ulimit -t 1; ulimit -v 8388608; exec "$0" "$1"`, e.Origami(), p},
 		Env:     []string{"GOMAXPROCS=2"},
 		Dir:     dir,
 		Timeout: 120 * time.Second,
@@ -621,7 +645,7 @@ func (d *driver) runAccepted(bs []base, c cspec) {
 	}
 	if crash, _ := lib.GoCrash(r); crash {
 		se := r.Stderr
-		site := crashSite(se)
+		site := strings.TrimPrefix(crashSite(se), strings.TrimSuffix(e.Repo, "/")+"/")
 		nilDeref := strings.Contains(se, "nil pointer dereference") || strings.Contains(se, "interface conversion: interface is nil") ||
 			strings.Contains(se, "is nil, not")
 		if strings.Contains(se, "goroutine stack exceeds") {
@@ -630,7 +654,11 @@ func (d *driver) runAccepted(bs []base, c cspec) {
 		}
 		if nilDeref {
 			d.count("nil_crash")
-			d.fail(failure{key: "run-nil@" + site, what: "the source is accepted by the parser and running it ends in an internal crash (Go nil dereference at " + site + "): " + oneLine(tailOf(se, 160), 160), ext: "php", text: text, id: c.ID})
+			kind := "nil-deref"
+			if !strings.Contains(se, "nil pointer dereference") {
+				kind = "nil-interface"
+			}
+			d.fail(failure{key: "run-nil@" + site + "#" + kind, what: "the source is accepted by the parser and running it ends in an internal crash (Go nil dereference at " + site + "): " + oneLine(tailOf(se, 160), 160), ext: "php", text: text, id: c.ID})
 			return
 		}
 		d.count("other_go_crash")
